@@ -147,12 +147,12 @@ def run(ctx, quirks="{}"):
     invs = C03_INV if ctx.prop == "C03" else C04_INV
     allinv = C03_INV + C04_INV
     if ctx.thorough():
-        model(ctx, consts(2, 4, 2, 2, [1, 2], quirks), allinv)
+        model(ctx, consts(2, 4, 2, 2, [1, 2, 3], quirks), allinv)
         model(ctx, consts(3, 4, 3, 2, [1, 3], quirks), allinv)
         cover = consts(2, 3, 2, 1, [1, 2], quirks)
         rand = [(2, 6, 200), (4, 10, 200), (8, 40, 100), (1, 3, 100)]
     else:
-        model(ctx, consts(2, 3, 2, 2, [1, 2], quirks), allinv)
+        model(ctx, consts(2, 3, 2, 2, [1, 2, 3], quirks), allinv)     # need 3 > capacity 2
         cover = consts(2, 2, 2, 1, [1], quirks)
         rand = [(2, 5, 60), (4, 10, 60)]
     cover_replay(ctx, cover, 2, allinv)
